@@ -22,7 +22,8 @@ TRUSTED_BASE = [
     "harness/ (Rust correspondence harness) and ./check (this orchestrator): trusted to report disagreements",
     "library semantics modelled, not verified: tokio mpsc/oneshot, tokio-util DelayQueue, futures Abortable/Fuse, serde derive schema, bincode, serde_json, LengthDelimitedCodec, rustc",
 ]
-ENV = dict(os.environ, CARGO_NET_OFFLINE="true", CARGO_TERM_COLOR="never", CARGO_TARGET_DIR=str(TARGET))
+ENV = dict(os.environ, CARGO_NET_OFFLINE="true", CARGO_TERM_COLOR="never")
+ENV.pop("CARGO_TARGET_DIR", None)
 
 
 class Lock:
@@ -39,8 +40,8 @@ class Lock:
         self.f.close()
 
 
-def sh(cmd, cwd=None, timeout=None, inp=None):
-    p = subprocess.run(cmd, cwd=cwd, env=ENV, stdout=subprocess.PIPE, stderr=subprocess.STDOUT,
+def sh(cmd, cwd=None, timeout=None, inp=None, env=None):
+    p = subprocess.run(cmd, cwd=cwd, env=env or ENV, stdout=subprocess.PIPE, stderr=subprocess.STDOUT,
                        text=True, timeout=timeout, input=inp)
     return p.returncode, p.stdout
 
@@ -152,7 +153,7 @@ def build_harness():
     t0 = time.time()
     with Lock("cargo"):
         lock = HARNESS / "Cargo.lock"
-        rc, out = sh(["cargo", "build", "--offline"], cwd=HARNESS, timeout=3000)
+        rc, out = sh(["cargo", "build", "--offline"], cwd=HARNESS, timeout=3000, env=dict(ENV, CARGO_TARGET_DIR=str(TARGET)))
     return rc == 0, out, round(time.time() - t0, 1)
 
 
